@@ -126,12 +126,13 @@ Definition quota_victims (p : ores) (sorted : list alloc) : qpass :=
 
 (* what one leaf context did: victims (marked and announced) and the claimed total *)
 Record leaf_out := mkLO { lo_queue : N; lo_pre : ores; lo_victims : list N; lo_claimed : ores }.
+Definition quota_order_ok (w : world) (q : queue) (p : ores) (order : list N) : bool :=
+  same_keys order (map a_key (quota_filter w q p)) && nodupN order.
+Definition quota_leaf_order (w : world) (q : queue) (p : ores) (order : list N) : leaf_out :=
+  let st := quota_victims p (victims_of w order) in
+  mkLO (q_id q) p (map a_key (qp_victims st)) (match qp_victims st with [] => None | _ => qp_total st end).
 Definition quota_leaf (w : world) (q : queue) (p : ores) (order : list N) : option leaf_out :=
-  if same_keys order (map a_key (quota_filter w q p)) && nodupN order then
-    let st := quota_victims p (victims_of w order) in
-    Some (mkLO (q_id q) p (map a_key (qp_victims st))
-               (match qp_victims st with [] => None | _ => qp_total st end))
-  else None.
+  if quota_order_ok w q p order then Some (quota_leaf_order w q p order) else None.
 
 Definition distribute := distributeF false.
 (* the contexts QuotaPreemptionContext.tryPreemption works on, for the queue it is started for *)
